@@ -85,9 +85,18 @@ def freshId (g : Graph) : Graph × String :=
 
 def entityId (g : Graph) (k : Nat) : Option String := g.getAttr k "entity_id"
 
-/-- `H5Group.delete_all(eid)`: every link, from any group, to an object whose `entity_id` is in
-`ids` is removed (the traversal of `visititems` reaches every group still reachable; links held
-by groups that became unreachable are unobservable) -/
+/-- `H5Group.delete_all(objs)`: every link, from any group, to one of the given *objects* (node keys)
+is removed (the traversal of `visititems` reaches every group still reachable; links held by groups
+that became unreachable are unobservable). An object is identified by what it is, not by its
+`entity_id`: a copy that kept the id of its source is another node and keeps its links. -/
+def deleteObjs (g : Graph) (ks : List Nat) : Graph :=
+  { g with nodes := g.nodes.map fun kn =>
+      (kn.1, { kn.2 with links := kn.2.links.filter fun l => !ks.contains l.2 }) }
+
+/-- `H5Group.delete_all(eid)` as it was BEFORE the repair `fix: deleting an entity also deleted every
+same-id copy file-wide`: every link, from any group, to an object whose `entity_id` is in `ids` was
+removed. No operation of the model uses it any more; it is kept only so that the statements about the
+code before the fix (`…_before_fix`) can still be made. -/
 def deleteAll (g : Graph) (ids : List String) : Graph :=
   { g with nodes := g.nodes.map fun kn =>
       let n := kn.2
